@@ -208,6 +208,8 @@ type symExec struct {
 	pdom  map[*ssa.Function]map[*ssa.BasicBlock]*ssa.BasicBlock
 	colla map[*ssa.BasicBlock]*collapseInfo
 	sums  map[*ssa.Function]*modSummary
+	phiExpand bool
+	phiStack  map[*ssa.Phi]bool
 }
 
 type collapseInfo struct {
@@ -882,7 +884,20 @@ func (se *symExec) eval(st *state, fr *frame, v ssa.Value, pristine bool) *Term 
 		}
 		return t
 	case *ssa.Phi:
-		return &Term{Op: "phi", Aux: fmt.Sprintf("%s.%s", fr.fn.Name(), in.Name()), Type: in.Type()}
+		name := fmt.Sprintf("%s.%s", fr.fn.Name(), in.Name())
+		if pristine && se.phiExpand && !se.phiStack[in] && len(se.phiStack) < 8 {
+			if se.phiStack == nil {
+				se.phiStack = map[*ssa.Phi]bool{}
+			}
+			se.phiStack[in] = true
+			t := &Term{Op: "phi", Aux: name, Type: in.Type()}
+			for _, e := range in.Edges {
+				t.Args = append(t.Args, se.val(st, fr, e))
+			}
+			delete(se.phiStack, in)
+			return t
+		}
+		return &Term{Op: "phi", Aux: name, Type: in.Type()}
 	case *ssa.Call:
 		// only reached in pristine mode (value defined before a region start)
 		var args []*Term
@@ -897,6 +912,9 @@ func (se *symExec) eval(st *state, fr *frame, v ssa.Value, pristine bool) *Term 
 			args = append([]*Term{val(in.Call.Value)}, args...)
 		} else if b, ok := in.Call.Value.(*ssa.Builtin); ok {
 			name = "builtin." + b.Name()
+		}
+		if f := in.Call.StaticCallee(); f == nil || !isPureExternal(f) {
+			name += "@" + in.Name()
 		}
 		return &Term{Op: "call", Aux: name, Args: args, Type: in.Type()}
 	case *ssa.Select:
